@@ -42,11 +42,10 @@ func ParseDistinguishedName(name string) (map[string]string, error) {
 			if attribute.Type == "S" {
 				attribute.Type = "ST"
 			}
-			if attrKeyValue[attribute.Type] == "" {
-				attrKeyValue[attribute.Type] = attribute.Value
-			} else {
+			if _, exists := attrKeyValue[attribute.Type]; exists {
 				return nil, fmt.Errorf("distinguished name (DN) %q has duplicate RDN attribute for %q, DN can only have unique RDN attributes", name, attribute.Type)
 			}
+			attrKeyValue[attribute.Type] = attribute.Value
 		}
 	}
 
